@@ -60,6 +60,37 @@ func b01(b bool) string {
 	return "0"
 }
 
+// the schedules of the real networks (pinned to the source by Props/C17B.schedules_as_replayed):
+// activation heights of proposals 016, 018, 021, 023
+var netSchedules = map[string][4]uint64{
+	"mainnet": {54038500, 55959500, 61202000, 63100000},
+	"robin":   {62320000, 65795000, 74312000, 77826000},
+}
+
+// ResetAt starts a new script under a real network's schedule at block height h: the node decides the flags
+// through IsProposalNNN() = height >= activation height; the op line carries the flags computed here.
+func (w *World) ResetAt(net string, h uint64, limit int) string {
+	sc := netSchedules[net]
+	common.LocalChainConfig.Proposal016Block = sc[0]
+	common.LocalChainConfig.Proposal018Block = sc[1]
+	common.LocalChainConfig.Proposal021Block = sc[2]
+	common.LocalChainConfig.Proposal023Block = sc[3]
+	common.SetBlockHeight(h)
+	f := [4]bool{h >= sc[0], h >= sc[1], h >= sc[2], h >= sc[3]}
+	service.VerifPoolReset(w.pool, limit)
+	st, err := middleware.AccountDBManagerInstance.GetAccountDBByHash(common.Hash{})
+	if err != nil {
+		panic(err)
+	}
+	w.state = st
+	w.txs = map[int]*types.Transaction{}
+	w.ids = map[*types.Transaction]int{}
+	w.next = 1
+	w.cfg = f
+	w.limit = limit
+	return fmt.Sprintf("cfg %s %s %s %s %d", b01(f[0]), b01(f[1]), b01(f[2]), b01(f[3]), limit)
+}
+
 // Reset starts a new script; returns the op line.
 func (w *World) Reset(p016, p018, p021, p023 bool, limit int) string {
 	setFlags(p016, p018, p021, p023)
@@ -160,7 +191,13 @@ func (w *World) Pack() []*types.Transaction {
 
 func (w *World) PackAns() string {
 	p := w.Pack()
-	return strconv.Itoa(len(p)) + " " + w.tags(p)
+	ans := strconv.Itoa(len(p)) + " " + w.tags(p)
+	// retention: the caller owns the returned slice (the chain sorts it in place); scribbling over it must
+	// not reach the pool — every later answer is still compared with the model
+	for i := range p {
+		p[i] = nil
+	}
+	return ans
 }
 
 func (w *World) list(ids []int) []*types.Transaction {
@@ -338,7 +375,12 @@ func (w *World) Exec(id int) bool { return w.pool.GetExecuted(w.txs[id].Hash) !=
 func (w *World) Expire()          { service.VerifPoolGrowRing(w.pool) }
 
 func (w *World) Stat() string {
-	return fmt.Sprintf("%d %v %d %s", w.pool.TxNum(), w.pool.IsFull(), w.pool.GetGateNonce(), w.tags(w.pool.GetReceived()))
+	rec := w.pool.GetReceived()
+	ans := fmt.Sprintf("%d %v %d %s", w.pool.TxNum(), w.pool.IsFull(), w.pool.GetGateNonce(), w.tags(rec))
+	for i := range rec { // retention, as in PackAns
+		rec[i] = nil
+	}
+	return ans
 }
 
 func (w *World) Less(a, b int) string {
